@@ -264,6 +264,10 @@ func (sp *c19Spec) delay(n int) time.Duration {
 
 func (sp *c19Spec) fails(n int) bool { return n < len(sp.Pattern) && sp.Pattern[n] == 'F' }
 
+// writeFails: in the file variant every third failing attempt fails in the write step (the directory of the
+// configuration file is not there, as while the shared volume is not mounted yet) instead of the reload step.
+func (sp *c19Spec) writeFails(n int) bool { return sp.Variant == "file" && sp.fails(n) && (sp.G+n)%3 == 0 }
+
 // ---------------------------------------------------------------- configurations
 
 // c19MakeConfig builds a fresh, renderable configuration whose content is a pure function of id.
@@ -730,7 +734,12 @@ func (s *c19Scn) fileBody(cfg *frrConfig) error {
 	s.mu.Lock()
 	s.sig = c19Signal{}
 	s.mu.Unlock()
+	wf := s.sp.writeFails(int(s.attempt.Load()) - 1)
+	if wf {
+		configFileName = c19FilePath + ".missing/frr.conf"
+	}
 	err := generateAndReloadConfigFile(cfg, log.NewNopLogger())
+	configFileName = c19FilePath
 	s.mu.Lock()
 	sg := s.sig
 	s.mu.Unlock()
@@ -738,6 +747,10 @@ func (s *c19Scn) fileBody(cfg *frrConfig) error {
 	s.lg.applyEnd(ai, id, reallyOK)
 	s.c.Eval()
 	switch {
+	case wf && !sg.called && err != nil:
+		s.c.Count("file-write-failures-injected")
+	case wf:
+		s.addFinding(c19Finding{Sig: "file:write-error-swallowed", Summary: fmt.Sprintf("apply #%d (content %d): the file could not be written (missing directory) and generateAndReloadConfigFile went on (signalled=%v, err=%v)", ai, id, sg.called, err)})
 	case !sg.called && err == nil:
 		s.addFinding(c19Finding{Sig: "file:reload-not-signalled", Summary: fmt.Sprintf("apply #%d (content %d) returned success without signalling the reloader", ai, id)})
 	case sg.called && sg.failed && err == nil:
